@@ -137,7 +137,11 @@ def run(ctx):
     if stale:
         rpn.note("stale discharge entries (site gone; not an error): %s" % stale)
     rpn.note("%d functions reachable (trait dispatch resolved conservatively to every impl in pest_typed + fx_macros)" % len(reach))
-    rpn.require(25, "sites")
+    # anchors: the entry points exist (above) and reach the bulk of the runtime; the site floor is deliberately about half of
+    # today's 28 so that a rewrite which removes panic-capable sites does not raise an alarm
+    if len(reach) < 1000:
+        rpn.violate("<reach>", "only %d functions reachable from the parse entry points (1383 on the pinned tree): call graph lost its anchors" % len(reach))
+    rpn.require(14, "sites")
     ctx.assume("panic-freedom as such is not decided: the discharge reasons are reviewed arguments (tables/*.json), several rest on the "
                "cursor invariant (char boundary, within start..end) which follows from the R09-UNSAFE entries only informally")
     ctx.assume("calls into pest, core, alloc, unicode-width are trusted not to panic on valid arguments")
